@@ -59,7 +59,7 @@ Qed.
 Theorem merge_keeps_com_and_momentum
   (flag : M13.particle R -> M13.particle R) t cb ps p1 p2 a b keep nact :
   M13.zth ps p1 = Some a -> M13.zth ps p2 = Some b -> p1 <> p2 ->
-  M13.plc a <> t -> M13.plc b <> t -> M13.pm a + M13.pm b <> 0 ->
+  M13.plc a <> t -> M13.plc b <> t -> C13.Resolve.mass_ok a b ->
   exists ps' ps'' nact',
     fst (M13.merge RNum t cb ps p1 p2) = ps' /\
     M13.remove_particle flag false keep nact ps' (C13.Resolve.gone_ix p1 p2) = (ps'', nact', true) /\
@@ -74,7 +74,7 @@ Theorem merge_keeps_com_and_momentum
        com_inv (com_range RNum (map to04 ps'')) (map to04 ps)).
 Proof.
   intros Z1 Z2 Hne La Lb Hm.
-  destruct (S13.merge_total_model flag t cb ps p1 p2 a b keep nact Z1 Z2 Hne La Lb Hm)
+  destruct (S13.merge_total_model_gen flag t cb ps p1 p2 a b keep nact Z1 Z2 Hne La Lb Hm)
     as (ps' & ps'' & nact' & E1 & E2 & E3 & E4).
   exists ps', ps'', nact'.
   destruct (conserved_to04 _ _ E4) as (C0 & C1 & C2 & C3 & C4 & C5 & C6).
